@@ -212,24 +212,37 @@ fn adaptive_cases(ctx: &mut Ctx, w: &World, idx: usize) {
     let lock = rand_scalar(&mut ctx.prng);
     // hidden state: other channel id, balances shifted, close-tag slot replaced
     let other = Agreed::random(ctx);
-    let mut ms_h = vec![other.cid_s, nonce, lock, Scalar::from(a.cb) + Scalar::from(1000u64), Scalar::from(a.mb) - Scalar::from(1000u64)];
-    for field in 0..8 {
+    let ms_all = vec![other.cid_s, nonce, lock, Scalar::from(a.cb) + Scalar::from(1000u64), Scalar::from(a.mb) - Scalar::from(1000u64)];
+    let ms_agreed = agreed_msg(&a, &nonce, &lock);
+    let mut ms_h = ms_all.clone();
+    for field in 0..12 {
+        // fields 0..3: the lie is confined to the slot of the one revealed scalar chosen after the challenge;
+        // fields 8..11: everything is a lie and all four revealed scalars are chosen after the challenge
+        if field < 4 {
+            ms_h = ms_agreed.clone();
+            match field { 0 => ms_h[0] = ms_all[0], 2 => ms_h[3] = ms_all[3], 3 => ms_h[4] = ms_all[4], _ => {} }
+        } else {
+            ms_h = ms_all.clone();
+        }
         let mut f = Forge::honest(ctx, &ms_h);
-        if field == 1 {
+        if field == 1 || field >= 8 {
             f.ms_c[1] = rand_scalar(&mut ctx.prng); // a nonce in the close-tag slot: close signature usable as pay token
         }
         let draft = match f.atoms(ctx, w, &Scalar::zero()) { Some(d) => d, None => return };
         let c1 = match merchant_challenge(ctx, w, &a, &draft) { Some(c) => c, None => return };
         let mut d = match f.atoms(ctx, w, &c1) { Some(d) => d, None => return };
         let pubs = [a.cid_s, CLOSE_SCALAR, Scalar::from(a.cb), Scalar::from(a.mb)];
-        // every revealed scalar is re-solved after the challenge so that the verifier's equations for the agreed values hold
         let what = match field {
-            0..=3 => {
+            0 => { d.k0 = d.st.zs[0] - c1 * pubs[0]; "post-challenge-channel-id-scalar" }
+            1 => { d.k1 = d.cl.zs[1] - c1 * pubs[1]; "post-challenge-close-tag-scalar" }
+            2 => { d.k3 = d.st.zs[3] - c1 * pubs[2]; "post-challenge-customer-balance-scalar" }
+            3 => { d.k4 = d.st.zs[4] - c1 * pubs[3]; "post-challenge-merchant-balance-scalar" }
+            8..=11 => {
                 d.k0 = d.st.zs[0] - c1 * pubs[0];
                 d.k1 = d.cl.zs[1] - c1 * pubs[1];
                 d.k3 = d.st.zs[3] - c1 * pubs[2];
                 d.k4 = d.st.zs[4] - c1 * pubs[3];
-                ["post-challenge-channel-id-scalar", "post-challenge-close-tag-scalar", "post-challenge-customer-balance-scalar", "post-challenge-merchant-balance-scalar"][field]
+                "post-challenge-all-revealed-scalars"
             }
             4 | 5 => {
                 // simulated sub-proof: responses consistent with the agreed values, T recomputed from the challenge
@@ -242,7 +255,7 @@ fn adaptive_cases(ctx: &mut Ctx, w: &World, idx: usize) {
                 d.cl.zs = dh.cl.zs.clone(); d.cl.zbf = dh.cl.zbf;
                 d.st.t = com(&d.st.zbf, &d.st.zs) - c1 * d.st.c;
                 d.cl.t = com(&d.cl.zbf, &d.cl.zs) - c1 * d.cl.c;
-                if field == 4 { "post-challenge-scalar-commitments" } else { "post-challenge-scalar-commitments-honest-close" }
+                "post-challenge-scalar-commitments"
             }
             _ => {
                 let hon = Forge::honest(ctx, &agreed_msg(&a, &nonce, &lock));
@@ -263,7 +276,6 @@ fn adaptive_cases(ctx: &mut Ctx, w: &World, idx: usize) {
                 ctx.notes.push(format!("field chosen after the challenge left the challenge unchanged: {}", what));
             }
         }
-        ms_h[3] += Scalar::one();
     }
 }
 
